@@ -13,6 +13,9 @@ def run_ops(d, r, ts, n=2):
     return [O(d, r, ts)] + [W("%s.%d" % (r, i + 1)) for i in range(n)] + [CLOSE]
 
 
+AFTER_FOR = {"run": "r9", "run-long": "r9", "run-nowrite": "r9", "update": "r1", "update-then-run": "r9"}
+
+
 def scenarios(tier, seed):
     P1 = run_ops("d1", "r1", 4)
     P2 = run_ops("d1", "r1", 2) + run_ops("d1", "r2", 5) + run_ops("d2", "r3", 6)
@@ -55,11 +58,24 @@ def scenarios(tier, seed):
                     else:
                         ops += part
                     out.append({"scen": sid, "names": names, "todayOnly": today, "label": "%s/%s" % (pn, cn), "nprior": nprior, "ops": ops})
+                    # the same kill points, and afterwards the store is used again: a manual update of the run that was being
+                    # recorded (or updated) when the process died, then a new run of the same DAG
+                    if cn in AFTER_FOR and not (tier == "quick" and (today or pn == "three" and cn != "run")):
+                        sid += 1
+                        tgt = AFTER_FOR[cn]
+                        after = [{"op": "Update", "d": "d1", "r": tgt, "st": tgt + ".7"}] + run_ops("d1", "r8", 9 if cn != "update-then-run" else 7, 1) \
+                                + [{"op": "Update", "d": "d1", "r": tgt, "st": tgt + ".8"}]
+                        out.append({"scen": sid, "names": names, "todayOnly": today, "label": "%s/%s+after" % (pn, cn), "nprior": nprior, "ops": ops, "after": after})
     for names in name_sets[:1]:
         for cn, part in crash_parts_long.items():
             for today in [False, True]:
                 sid += 1
                 out.append({"scen": sid, "names": names, "todayOnly": today, "label": "many/%s" % cn, "nprior": len(P14), "ops": list(P14) + part})
+                if not today:
+                    sid += 1
+                    tgt = "q13" if cn == "update" else "r9"
+                    after = [{"op": "Update", "d": "d1", "r": tgt, "st": tgt + ".7"}] + run_ops("d1", "r8", 24, 1)
+                    out.append({"scen": sid, "names": names, "todayOnly": today, "label": "many/%s+after" % cn, "nprior": len(P14), "ops": list(P14) + part, "after": after})
     return out
 
 
@@ -68,7 +84,7 @@ def run(prop, tier, seed, replay=None):
     vh = vp.build_harness()
     work = vp.scratch(prop)
     try:
-        states, transitions, runs = rc.model_check(work, "HistoryFS", ["MC_C07.cfg"])
+        states, transitions, runs = rc.model_check(work, "HistoryFS", ["MC_C07.cfg"] if tier == "quick" else ["MC_C07.cfg", "MC_C07_deep.cfg"])
         if replay:
             rp = json.load(open(replay))["replay"]
             scs = [rp["scenario"]]
@@ -97,9 +113,9 @@ def run(prop, tier, seed, replay=None):
         for v in verdicts:
             for c in v["viol"]:
                 rep.violation({"clause": c, "inflight": v["inflight"], "sys": v["sys"], "latestError": v["latestError"],
-                               "recentDuplicate": v["recentDuplicate"], "emptyFile": v["emptyFile"]},
+                               "recentDuplicate": v["recentDuplicate"], "emptyFile": v["emptyFile"], "torn": v["torn"] >= 0},
                               {"scenario": by_id.get(v["scen"]), "kill": {"k": v["k"], "sys": v["sys"], "torn": v["torn"], "nack": v["nack"]},
-                               "files": v["files"], "answers": v["ans"]})
+                               "files": v["files"], "answers": v["ans"], "answers_after_recovery": {d: a for d, a in (v.get("ans2") or {}).items() if d == "d1"}})
         per_sys, torn, samples = {}, 0, []
         with open(rec) as f:
             for i, line in enumerate(f):
@@ -115,7 +131,9 @@ def run(prop, tier, seed, replay=None):
                         "traces_validated_against_impl": consumed,
                         "rule": "prior history {none, 1 run, 3 runs over 2 DAGs} x crashed operation {run, run without write, long run, update, update+run, rename, rename onto a DAG with history, "
                                 "retention, delete} x name tables x latestStatusToday; the child is SIGKILLed at the entry of EVERY mutating system call under the data directory and at 3 torn prefixes "
-                                "(1 byte, half, all but the last byte) of every write; queries run in a fresh process; distinct = kill points, trivial = the no-kill control run of each scenario",
+                                "(1 byte, half, all but the last byte) of every write; queries run in a fresh process; '+after' scenarios: a second fresh process then updates the interrupted run, records a new run "
+                                "and updates again, and the queries are asked a second time (the store goes on recording after a crash); a prior history of 13 runs ('many'); "
+                                "distinct = kill points, trivial = the no-kill control run of each scenario",
                         "samples": samples, "exhaustive": True})
         rep.assumptions += ["process crash (SIGKILL), not power loss: data handed to write() survives",
                             "system calls are enumerated from one listing run per scenario; the traced child is deterministic (single writer, no timers)"]
